@@ -125,6 +125,11 @@ def make_recurrence(data, start, fmt, reps=3):
 # ---------------------------------------------------------------------------
 # the operation table: name -> (operand kinds, callable(ops) -> result)
 # ---------------------------------------------------------------------------
+def _dumper():
+    import sys
+    return sys.modules["metomi.isodatetime.dumpers"].TimePointDumper()
+
+
 def point_ops(data):
     T = {}
     T["p + d"] = (("p", "d"), lambda p, d: p + d)
@@ -157,6 +162,10 @@ def point_ops(data):
     T["p + t (truncated)"] = (("p", "t"), lambda p, t: p + t)
     T["t + p (truncated)"] = (("p", "t"), lambda p, t: t + p)
     T["r = p.to_time_zone(z); r + d"] = (("p", "z", "d"), lambda p, z, d: p.to_time_zone(z) + d)
+    T["str(p)"] = (("p",), lambda p: str(p))
+    T["dump(p, fmt)"] = (("p",), lambda p: (lambda dp: (dp.dump(p, "CCYY-MM-DDThh:mm:ssZ"), dp.dump(p, "CCYYDDDThhmmss+0530"),
+                                                         dp.dump(p, "CCYY-Www-DThh:mm+hh:mm")))(_dumper()))
+    T["p.strftime(fmt)"] = (("p",), lambda p: (p.strftime("%Y-%m-%dT%H:%M:%S%z"), p.strftime("%j %F %X %s")))
     T["r = p.to_time_zone(z); r.to_utc(); r - p"] = (("p", "z"), lambda p, z: (lambda r: (r.to_utc(), r - p))(p.to_time_zone(z)))
     return T
 
@@ -174,6 +183,8 @@ def duration_ops(data):
     T["hash(d), bool(d)"] = (("d",), lambda d: (d.__hash__(), bool(d)))
     T["d.to_days(), d.to_weeks()"] = (("d",), lambda d: (d.to_days(), d.to_weeks() if not d._years and not d._months else None))
     T["d.get_seconds(), get_days_and_seconds(), is_exact()"] = (("d",), lambda d: (d.get_seconds(), d.get_days_and_seconds(), d.is_exact(), d.get_is_in_weeks()))
+    T["str(d)"] = (("d",), lambda d: str(d))
+    T["str(z)"] = (("z",), lambda z: str(z))
     T["z1 - z2 (zones)"] = (("z", "y"), lambda z, y: z - y)
     T["hash(z), z == y"] = (("z", "y"), lambda z, y: (z.__hash__(), bool(z == y)))
     return T
@@ -188,6 +199,7 @@ def recurrence_ops(data):
     T["r.get_first_after(q)"] = (("r", "q"), lambda r, q: r.get_first_after(q))
     T["r[1]"] = (("r",), lambda r: r[1])
     T["r + d, d + r, r - d"] = (("r", "d"), lambda r, d: (r + d, d + r, r - d))
+    T["str(r)"] = (("r",), lambda r: str(r))
     T["r == s, hash(r)"] = (("r", "s"), lambda r, s: (bool(r == s), r.__hash__()))
     return T
 
@@ -344,7 +356,7 @@ def public_surface(data):
                 continue
             if n in ("__class__", "__doc__", "__module__", "__slots__", "__init__", "__new__", "__dir__", "__sizeof__",
                      "__reduce__", "__reduce_ex__", "__getattribute__", "__setattr__", "__delattr__", "__subclasshook__",
-                     "__init_subclass__", "__format__", "__getstate__", "__repr__", "__str__"):
+                     "__init_subclass__", "__format__", "__getstate__", "__repr__", "__str__"):   # __str__: in the table as str(x)
                 continue
             names.add("%s.%s" % (cls.__name__, n))
     return sorted(names)
@@ -365,7 +377,7 @@ Duration.to_days Duration.to_weeks Duration.get_seconds Duration.get_days_and_se
 Duration.get_is_in_weeks TimeZone.__sub__ TimeZone.__hash__ TimeZone.__eq__
 TimeRecurrence.__iter__ TimeRecurrence.get_is_valid TimeRecurrence.get_next TimeRecurrence.get_prev
 TimeRecurrence.get_first_after TimeRecurrence.__getitem__ TimeRecurrence.__add__ TimeRecurrence.__sub__
-TimeRecurrence.__eq__ TimeRecurrence.__hash__""".split()
+TimeRecurrence.__eq__ TimeRecurrence.__hash__ TimePoint.strftime TimeZone.__str__""".split()
 
 
 def job_surface(ctx):
@@ -433,10 +445,11 @@ INFO = {
                    "length no sequence of operations can then alter an earlier value.",
     "bounds": {"quick": {"points": "years 1704 and 2104, dates around end of February / year end / week 52-53, offsets +-3:59, any time incl. 24:00",
                          "durations": "days +-2, hours +-25, minutes/seconds +-1 (every zero/non-zero/sign pattern); nominal years +-2 months +-3 days +-3; weeks +-8",
+                         "formatting": "str() of points, durations, zones and recurrences; TimePointDumper.dump(p, f) for a calendar/Z, an ordinal/literal +0530 and a week/+hh:mm format (each converts representation and zone internally); p.strftime with %Y-%m-%dT%H:%M:%S%z and %j %F %X %s",
                          "recurrences": "3 repetitions of PT36H in the three notations, an unbounded P1D series and single-point recurrences (R1/start/.., R1/../end), anchors on the last three days of the year",
                          "modes": "gregorian"},
                "thorough": {"modes": "all 4", "representations": "every operation in all 3 representations"}},
-    "outside": ["str()/dump/strftime as operations (string layer)", "private _-methods called directly", "attribute assignment by the user",
+    "outside": ["formatting other than str(x), TimePointDumper.dump with three fixed formats and strftime with two fixed formats", "private _-methods called directly", "attribute assignment by the user",
                 "operand dates outside the stated windows (a mutation that only happens elsewhere would be missed)"],
     "assumptions": ["the operation table is the public surface; names not in it are listed in evidence as not exercised"],
 }
